@@ -18,14 +18,18 @@ events on `drain`.
 Ops (a case starts with `reset [next=<counter>]`):
   open c=K | in c=K it=<f:pk,pk,..|bad|err|eof> | rd c=K [w=0] | rds c=K [w=0] | wr c=K ok=<0|1> |
   adv dt=MS | kick c=K | okick c=K | push c=K | mpush ids=<cK|u<n>,..> | spush c=K | fill c=K n=N | qfill n=N | arm <op> | go | drain | end
-  (`open` options: cbp=<h|c> panicking close callback, ce=<1|f> conn.Close() returns an error (always | first call))
+  (`open` options: cbp=<h|c> panicking close callback, ce=<1|f> conn.Close() returns an error (always | first call),
+   oa=<k|p> the owner's handler kicks the session / pushes to its id from inside OnSessionAdd)
 packets: hs1 hs0 ack d<mid> x<mid> hb ot.
 
 Observation: one record per connection, `;`-separated, then ` | live=<ids> g=<goroutines>`:
   cK:st=<1-4>,rd=<w|h|m|x>,wr=<p|->,cc=<conn.Close calls>,nw=<writes>,hw=<handshake responses>,
-     np=<pushes handed to it by the owner's PushMsg>,ev=<A|M<mid>|R …; nothing is recorded after R>,ow=<a<id>|m<mid>|n<mid>|r<h><c> …>[,r=<ok|closed>]
+     np=<pushes handed to it by the owner's PushMsg>,ev=<A|M<mid>|R …; nothing is recorded after R>,ow=<a<id>|m<mid>|n<mid>|r<h><c> …>,
+     tb=<the handler's own lookup of the id from inside OnSessionAdd (1 = this session), then from inside OnSessionRemove (0 = gone)>[,r=<ok|closed>]
 
-tcp smoke engine (real TCPAcceptor, real time): `reset-tcp pk=<pk,..> tail=<hex> [lens=<body lengths> cut=<byte offsets>]`
+tcp smoke engine (real TCPAcceptor, real time): `reset-tcp pk=<pk,..> tail=<hex> [lens=<body lengths> cut=<byte offsets>] [passive=1]`
+(`passive=1`: the client never half-closes; `Framing.framesOpen`; the reader ends the session on a complete malformed header, otherwise the
+owner kicks it; observation gets `,rel=<the server's socket is gone>`)
 = one whole connection whose byte stream arrives in the pieces given by `cut`; the model frames the same stream
 (`Framing.framesOf`: real headers and tail, body bytes abstracted) and feeds the messages to the session model;
 `b<mid>` = a decodable message with a body larger than the socket buffers; `reset-wsc pk=.. tail=.. [frag=1] [glue=1]` =
@@ -37,7 +41,7 @@ namespace Cell2v.Driver.C05
 open Cell2v.Driver Cell2v.Session
 
 /-- owner-handler events of one connection, as displayed -/
-inductive OwEv | a (id : Nat) | m (mid : Nat) | r
+inductive OwEv | a (id : Nat) | m (mid : Nat) | r (handlerCbs : Nat) (sessionsCb : Bool)
   deriving Repr
 
 structure Conn where
@@ -50,6 +54,9 @@ structure Conn where
   ow : List OwEv := []
   cbp : String := ""         -- scripted close callbacks that panic: h = the handler's per-session one, c = the sessions' one
   np : Nat := 0              -- pushes the owner's PushMsg handed to this session
+  oa : String := ""          -- what the owner's handler does from inside OnSessionAdd: k = kicks the session, p = pushes to its id
+  tb : String := ""          -- the sessions map as the handler finds it inside its callbacks: at the add (1 = the announced session is
+                             -- registered under its id), at the remove (0 = the id is gone)
 
 structure D where
   conns : List Conn := []
@@ -59,6 +66,7 @@ structure D where
   live : List (Nat × Nat) := []      -- sessions map: (id, connection)
   armed : Option String := none      -- op recorded by `arm`, executed by `go`
   fillers : Nat := 0                 -- filler closures in the owner's queue (`qfill`), gone at the next drain
+  hnd : Hnd := {}                    -- HandlerComponent.onCloseCBs: id ↦ the connection whose handler registered a close callback
 
 def M32 : Nat := 4294967296
 
@@ -171,8 +179,8 @@ def showEv : Ev → String
 /-- a panicking handler callback aborts RemoveSession before the sessions' own close callback -/
 def rTok (cbp : String) : String := if cbp.contains 'h' then "r1" else "r11"
 
-def showOw (cbp : String) : OwEv → String
-  | .a id => s!"a{id}" | .m k => s!"m{k}" | .r => rTok cbp
+def showOw (_cbp : String) : OwEv → String
+  | .a id => s!"a{id}" | .m k => s!"m{k}" | .r h c => s!"r{h}{if c then "1" else ""}"
 
 /-- messages posted after the remove are not part of the observation (the owner drops them) -/
 def evShown : List Ev → List Ev
@@ -181,7 +189,7 @@ def evShown : List Ev → List Ev
   | e :: r => e :: evShown r
 
 def showConn (c : Conn) (extra : String) : String :=
-  s!"c{c.k}:st={c.s.status.toNat},rd={rdName c},wr={if c.s.wr == .inw then "p" else "-"},cc={c.s.connCloses},nw={c.s.writes},hw={c.hw},np={c.np},ev={String.join ((evShown c.s.posted).map showEv)},ow={String.join (c.ow.map (showOw c.cbp))}" ++ extra
+  s!"c{c.k}:st={c.s.status.toNat},rd={rdName c},wr={if c.s.wr == .inw then "p" else "-"},cc={c.s.connCloses},nw={c.s.writes},hw={c.hw},np={c.np},ev={String.join ((evShown c.s.posted).map showEv)},ow={String.join (c.ow.map (showOw c.cbp))},tb={c.tb}" ++ extra
 
 def goroutines (d : D) : Nat :=
   d.conns.foldl (fun a c => a + (if c.s.rd == .done then 0 else 1) + (if c.s.wr == .done then 0 else 1) +
@@ -211,6 +219,12 @@ def collect (d : D) : D :=
 
 def settleAll (d : D) : D := collect { d with conns := d.conns.map settleC }
 
+def kickConn (d : D) (c : Conn) : D :=
+  settleAll (putConn d { c with s := fireL c.s [.kick] })
+
+/-- an application push would park its caller: queue full on an open session -/
+def wouldBlock (c : Conn) : Bool := c.s.status != .closed && c.s.closed == false && c.s.sendq ≥ sendCap
+
 /-- `ClientSessions` on the owner goroutine, one posted task (the sessions map is `Session.Own`: every lookup is by the
 id the session holds, `session.GetId()`) -/
 def ownerTask (d : D) (k : Nat) (e : Ev) : D :=
@@ -221,25 +235,50 @@ def ownerTask (d : D) (k : Nat) (e : Ev) : D :=
     match e with
     | .add =>
       let r := o.add M32 k
-      putConn { d with counter := r.1.counter, live := r.1.live } { c with id := r.2, ow := c.ow ++ [.a r.2] }
+      -- the handler's own lookup of the announced id, from inside OnSessionAdd
+      let c := { c with id := r.2, ow := c.ow ++ [.a r.2], tb := c.tb ++ (if r.1.lookup r.2 == some k then "1" else "0") }
+      -- the harness's handler registers a per-session close callback with the real HandlerComponent
+      let d := putConn { d with counter := r.1.counter, live := r.1.live, hnd := d.hnd.register r.2 k } c
+      -- ... and what it does with the session there: Kick(id) / PushMsg([id]) go through the map like anybody else's
+      if c.oa == "k" then
+        (match r.1.lookup r.2 with
+         | some k' => (match findConn d k' with | some c' => kickConn d c' | none => d)
+         | none => d)
+      else if c.oa == "p" then
+        (if wouldBlock c then d else
+         (r.1.pushTargets [r.2]).foldl (fun d k' => match findConn d k' with
+           | some c' => settleAll (putConn d { c' with s := fireL c'.s [.push], np := c'.np + 1 })
+           | none => d) d)
+      else d
     | .msg mid =>
       -- findSession(session.GetId()): dropped when nothing is registered under the id
       match o.lookup c.id with
       | some _ => putConn d { c with ow := c.ow ++ [.m mid] }
       | none => d
     | .remove =>
-      -- the entry found under the id is deleted; the handler and the close callbacks get ITS FrontSession
-      match o.remove c.id with
-      | (o', some k') =>
-        let d := { d with live := o'.live }
+      -- `Session.removeSession`: the entry found under the id is deleted; the handler and the close callbacks get ITS
+      -- FrontSession; the callback registered under the id runs (a scripted one may panic: the removal ends there)
+      let panics := match (d.hnd.lookup c.id).bind (findConn d) with
+        | some cc => cc.cbp.contains 'h'
+        | none => false
+      match removeSession o d.hnd c.id panics with
+      | (o', h', { conn := some k', handlerCb := hcb, sessionsCb := scb }) =>
+        let d := { d with live := o'.live, hnd := h' }
         (match findConn d k' with
-         | some c' => putConn d { c' with ow := c'.ow ++ [.r] }
+         | some c' => putConn d { c' with ow := c'.ow ++ [.r (if hcb.isSome then 1 else 0) scb],
+                                          tb := c'.tb ++ (if (o'.lookup c.id).isSome then "1" else "0") }
          | none => d)
-      | (_, none) => d
+      | (_, _, _) => d
 
-def drain (d : D) : D :=
-  let q := d.queue
-  q.foldl (fun d p => ownerTask d p.1 p.2) { d with queue := [], fillers := 0 }
+/-- the owner runs until its queue is empty (a task may post further tasks: a kick from inside OnSessionAdd posts the remove) -/
+def drainN : Nat → D → D
+  | 0, d => d
+  | n + 1, d =>
+    if d.queue.isEmpty then { d with fillers := 0 } else
+    let q := d.queue
+    drainN n (q.foldl (fun d p => ownerTask d p.1 p.2) { d with queue := [], fillers := 0 })
+
+def drain (d : D) : D := drainN 16 d
 
 def isLive (d : D) (c : Conn) : Bool := c.id != 0 && d.live.any (fun p => p.1 == c.id && p.2 == c.k)
 
@@ -263,9 +302,6 @@ def advance (d : D) (target : Nat) : Nat → D
         | none => d      -- cannot happen after settle (hb at sel)
         | some s' => advance (settleAll (putConn d { c with s := s' })) target n
 
-def kickConn (d : D) (c : Conn) : D :=
-  settleAll (putConn d { c with s := fireL c.s [.kick] })
-
 def endCase (d : D) : D :=
   let d := d.conns.foldl (fun d c => match findConn d c.k with | some c => kickConn d c | none => d) d
   let d := d.conns.foldl (fun d c =>
@@ -280,10 +316,7 @@ def endCase (d : D) : D :=
   drain d
 
 def showOwNoId : OwEv → String
-  | .a _ => "a" | .m k => s!"m{k}" | .r => "r11"
-
-/-- an application push would park its caller: queue full on an open session -/
-def wouldBlock (c : Conn) : Bool := c.s.status != .closed && c.s.closed == false && c.s.sendq ≥ sendCap
+  | .a _ => "a" | .m k => s!"m{k}" | .r h c => s!"r{h}{if c then "1" else ""}"
 
 def stepCore (d : D) (line : String) : D × String :=
   let ws := words line
@@ -295,7 +328,7 @@ def stepCore (d : D) (line : String) : D × String :=
   | some "open" =>
     if (findConn d k).isSome || k == 0 then (d, "none") else
     let s0 : St := initAt d.now
-    let d := { d with conns := d.conns ++ [{ k := k, s := s0, cbp := (kv ws "cbp").getD "" }], queue := d.queue ++ [(k, .add)] }
+    let d := { d with conns := d.conns ++ [{ k := k, s := s0, cbp := (kv ws "cbp").getD "", oa := (kv ws "oa").getD "" }], queue := d.queue ++ [(k, .add)] }
     let d := settleAll d
     (d, showObs d k "")
   | some "in" =>
@@ -400,10 +433,12 @@ def framedToks : List (List Nat) → List (String × List Nat) → Option (List 
     | some w => (framedToks fr []).map (w :: ·)
     | none => none
 
-/-- `GetNextMessage` over the byte stream of the op, cut as the client sent it -/
-def tcpFramed (ws : List String) (pks : List String) : Option (List String) :=
+/-- `GetNextMessage` over the byte stream of the op, cut as the client sent it; the Bool: the reader itself ends the session
+(FIN or a framing error); `false` only for a passive client (`passive=1`: no half-close) whose stream leaves the reader parked in Read -/
+def tcpFramed (ws : List String) (pks : List String) : Option (List String × Bool) :=
+  let passive := kv ws "passive" == some "1"
   match kv ws "lens" with
-  | none => some pks           -- the op without stream description: one packet per message
+  | none => some (pks, !passive)           -- the op without stream description: one packet per message
   | some lv =>
     let lens := if lv == "" then [] else (lv.splitOn ",").filterMap String.toNat?
     if lens.length != pks.length then none else
@@ -413,18 +448,25 @@ def tcpFramed (ws : List String) (pks : List String) : Option (List String) :=
     let cuts := match kv ws "cut" with
       | some v => (v.splitOn ",").filterMap String.toNat?
       | none => []
-    framedToks (Framing.framesOf (pks.length + 8) (Framing.cutAt bytes 0 cuts)).1 pkts
+    if passive then
+      let r := Framing.framesOpen (pks.length + 8) (Framing.cutAt bytes 0 cuts)
+      (framedToks r.1 pkts).map fun t => (t, r.2 == .err)
+    else (framedToks (Framing.framesOf (pks.length + 8) (Framing.cutAt bytes 0 cuts)).1 pkts).map fun t => (t, true)
 
-/-- one whole connection: the framed messages one by one, then the read error / EOF that ends every stream -/
-def connScript (pks : List String) : String :=
+/-- one whole connection: the framed messages one by one, then what ends it: the read error / EOF of the stream
+(`readerEnds`), or — the client stays passive and the reader is parked in Read — the owner kicks the session once it has
+run everything queued (`rel`: the socket was closed, the peer's further bytes are answered by a reset) -/
+def connScript (pks : List String) (readerEnds : Bool := true) (passive : Bool := false) : String :=
   let d0 : D := {}
   let d := (stepCore d0 "open c=1").1
   let d := pks.foldl (fun d pk => (stepCore (stepCore d s!"in c=1 it=f:{pk}").1 "rd c=1").1) d
-  let d := (stepCore (stepCore d "in c=1 it=err").1 "rd c=1").1
+  let d := if readerEnds then (stepCore (stepCore d "in c=1 it=err").1 "rd c=1").1
+           else (stepCore (stepCore d "drain").1 "okick c=1").1
   let d := endCase d
   match findConn d 1 with
   | some c =>
-    s!"ev={String.join ((evShown c.s.posted).map showEv)},ow={String.join (c.ow.map showOwNoId)},eof={c.s.connCloses},g={goroutines d}"
+    s!"ev={String.join ((evShown c.s.posted).map showEv)},ow={String.join (c.ow.map showOwNoId)},eof={c.s.connCloses},g={goroutines d}" ++
+      (if passive then s!",rel={c.s.connCloses}" else "")
   | none => "bad-op"
 
 def pksOf (ws : List String) : List String :=
@@ -436,7 +478,7 @@ def pksOf (ws : List String) : List String :=
 def tcpScript (ws : List String) : String :=
   match tcpFramed ws (pksOf ws) with
   | none => "bad-op"
-  | some pks => connScript pks
+  | some (pks, readerEnds) => connScript pks readerEnds (kv ws "passive" == some "1")
 
 /-- the messages of a result list up to the first error -/
 def msgsUntilErr : List Framing.Next → List (List Nat)
@@ -459,9 +501,12 @@ def wscScript (ws : List String) : String :=
   | none => "bad-op"
   | some toks => connScript toks
 
-/-- `n` sessions, each ended by several independent close causes at once: whatever the interleaving (close_once,
-every_ending_closes) every session is removed once, its conn closed once, nothing panics, every goroutine returns -/
-def raceObs (n : Nat) : String := s!"n={n},creates={n},removed1={n},closed1={n},thrown=0,left=0"
+/-- `n` sessions, each ended by several independent close causes at once, two pushers running beside them: whatever the
+interleaving (close_once, every_ending_closes; statement level: close_statement_level_once) every session is removed once, its
+conn closed once, nothing panics (push_racing_close_never_enqueues: a racing push is accepted or recovered), every goroutine
+returns; no Close() returns before the session is completely closed (close_returned_means_closed: `early`), a push after that
+is refused (`latepush`) -/
+def raceObs (n : Nat) : String := s!"n={n},creates={n},removed1={n},closed1={n},thrown=0,left=0,early=0,latepush=0"
 
 def step (d : D) (line : String) : D × String :=
   let ws := words line
@@ -489,6 +534,7 @@ structure SpConn where
   sent : List Nat := []      -- message ids handed to the reader, in order
   lastGrant : Nat := 0       -- virtual time of the latest reader grant (the heartbeat stamp is never later)
   cbp : String := ""         -- scripted panicking close callbacks
+  oa : String := ""          -- what the owner's handler does from inside OnSessionAdd (k = kick, p = push)
   filled : Bool := false     -- its send queue was filled up: the heartbeat goroutine may be parked in its send
   pend : List Nat := []      -- message ids of the frame the reader holds that must all be posted if nothing closes the session first
   must : List Nat := []      -- message ids that must have been posted (lower bound of the message clause)
@@ -546,6 +592,9 @@ def checkConn (sp : Sp) (atEnd : Bool) (drained : Bool) (k : Nat) (fs : List Str
   let nr := (ow.filter (·.startsWith "r")).length
   let owM := (ow.filter (·.startsWith "m")).map numOf
   let afterR := ((ow.dropWhile (fun t => !t.startsWith "r")).drop 1)
+  let tb := ((kv fs "tb").getD "").toList
+  let oa := ((sp.conns.find? (·.k == k)).map (·.oa)).getD ""
+  let np := (kvNat fs "np").getD 0
   if nA != 1 || ev.head? != some "A" then some s!"C05/session-add-missing-or-twice connection {k}: {nA} OnSessionCreate calls ({ev})"
   else if na > 1 || (na == 1 && !(ow.head?.getD "").startsWith "a") then some s!"C05/session-add-missing-or-twice connection {k}: owner saw {ow}"
   else if nR > 1 then some s!"C05/session-remove-twice connection {k}: OnSessionClose called {nR} times"
@@ -555,6 +604,14 @@ def checkConn (sp : Sp) (atEnd : Bool) (drained : Bool) (k : Nat) (fs : List Str
   else if ow.any (·.startsWith "n") then some s!"C05/message-after-remove connection {k}: handler invoked without a session: {ow}"
   else if afterR.any (fun t => t.startsWith "m" || t.startsWith "n") then some s!"C05/message-after-remove connection {k}: {ow}"
   else if na == 0 && (owM.length > 0 || nr > 0) then some s!"C05/session-add-missing-or-twice connection {k}: owner saw {ow} without an add"
+  else if na == 1 && tb.head? != some '1' then
+    some s!"C05/added-session-not-live connection {k}: the handler was told of the new session ({ow.head?.getD ""}) but from inside OnSessionAdd the owner's table holds no such session under that id (kicks, pushes and lookups at that moment miss it)"
+  else if nr == 1 && tb.drop 1 != ['0'] then
+    some s!"C05/removed-session-still-live connection {k}: from inside OnSessionRemove the id is still registered at the owner (tb={String.ofList tb})"
+  else if na == 1 && oa == "k" && nR == 0 then
+    some s!"C05/kick-ignored connection {k}: the handler kicked the session from inside OnSessionAdd ({ow.head?.getD ""}); the session was not closed (status {st}, no OnSessionClose)"
+  else if na == 1 && oa == "p" && !filled && np == 0 then
+    some s!"C05/push-delivery connection {k}: the handler pushed to the id of the session it was just told of ({ow.head?.getD ""}) from inside OnSessionAdd: the push reached nobody"
   else if !isSubseq (((sp.conns.find? (·.k == k)).map (·.must)).getD []) evM then
     some s!"C05/message-lost connection {k}: {((sp.conns.find? (·.k == k)).map (·.must)).getD []} arrived in frames of decodable data on the Working session and the reader was back for more before anything closed the session; posted {evM}"
   else if !isSubseq evM sent then some s!"C05/message-order connection {k}: posted {evM}, arrived {sent}"
@@ -615,7 +672,9 @@ def specTcp (ws : List String) (obs : String) : String :=
   else if ow != ["a"] ++ (owM.map fun m => s!"m{m}") ++ ["r11"] then s!"VIOLATION C05/owner-sequence tcp connection: owner saw {ow}"
   else if !isSubseq evM sent || owM != evM then s!"VIOLATION C05/message-order tcp connection: arrived {sent}, posted {evM}, owner saw {owM}"
   else if kv fs "eof" != some "1" then "VIOLATION C05/socket-not-closed tcp connection: the server never closed the socket"
-  else if kv fs "g" != some "0" then s!"VIOLATION C05/goroutine-leak tcp connection: goroutines left: {(kv fs "g").getD "?"}"
+  else if kv fs "g" != some "0" then s!"VIOLATION C05/goroutine-leak tcp connection{if kv ws "passive" == some "1" then " ended by the server while the client keeps its side open and silent" else ""}: goroutines left: {(kv fs "g").getD "?"}"
+  else if kv ws "passive" == some "1" && kv fs "rel" != some "1" then
+    "VIOLATION C05/socket-not-closed tcp connection ended by the server (kick / malformed input) while the client keeps its side open: after the removal the server's socket still takes the client's bytes (never answered by a reset)"
   else "ok"
 
 /-- accept burst: every connection served by exactly one session, added once, removed once, closed once -/
@@ -632,12 +691,14 @@ def specBurst (ws : List String) (obs : String) : String :=
 def specRace (ws : List String) (obs : String) : String :=
   let fs := obs.splitOn ","
   let n := (kvNat ws "n").getD 0
-  let what := s!"{n} sessions, each closed by {(kvNat ws "k").getD 0} Close() calls + client EOF + write failure at the same instant ({if kv ws "hold" == some "1" then "arriving while Close is running" else "released together"})"
+  let what := s!"{n} sessions, each closed by {(kvNat ws "k").getD 0} Close() calls + client EOF + write failure at the same instant, 2 pushers beside them ({if kv ws "hold" == some "1" then "arriving while Close is running" else "released together"})"
   if kvNat fs "thrown" != some 0 then s!"VIOLATION C05/close-panic {what}: Close() panicked: {obs}"
   else if kvNat fs "creates" != some n then s!"VIOLATION C05/session-add-missing-or-twice {what}: {obs}"
   else if kvNat fs "removed1" != some n then s!"VIOLATION C05/session-remove-twice {what}: not every session got exactly one OnSessionClose: {obs}"
   else if kvNat fs "closed1" != some n then s!"VIOLATION C05/conn-close-count {what}: not every conn was closed exactly once: {obs}"
   else if kvNat fs "left" != some 0 then s!"VIOLATION C05/goroutine-leak {what}: {obs}"
+  else if (kvNat fs "early").getD 0 != 0 then s!"VIOLATION C05/no-session-remove {what}: a Close() call returned while the session was not completely closed (conn.Close and OnSessionClose each exactly once by then): {obs}"
+  else if (kvNat fs "latepush").getD 0 != 0 then s!"VIOLATION C05/push-after-close {what}: a push made after every Close() had returned was accepted: {obs}"
   else "ok"
 
 def specStep (sp : Sp) (line : String) : Sp × String :=
@@ -669,7 +730,7 @@ def specStep (sp : Sp) (line : String) : Sp × String :=
     let sp := if isGo then { sp with armed := none } else sp
     let sp : Sp := match ws.head? with
       | some "reset" => {}
-      | some "open" => { sp with conns := sp.conns ++ [{ k := (kvNat ws "c").getD 0, lastGrant := sp.now, cbp := (kv ws "cbp").getD "" }] }
+      | some "open" => { sp with conns := sp.conns ++ [{ k := (kvNat ws "c").getD 0, lastGrant := sp.now, cbp := (kv ws "cbp").getD "", oa := (kv ws "oa").getD "" }] }
       | some "fill" =>
         if obs == "none" then sp else
         let k := (kvNat ws "c").getD 0
